@@ -299,7 +299,9 @@ def e1_run(tier):
         os.makedirs(sdir)
         # (1) design check: intended design (KF = {}) satisfies every property predicate in every reachable state
         open(os.path.join(spec, name + "_design.cfg"), "w").write(scenario_cfg(sc, False, True, [], depth))
-        d = run_tlc_retry(spec, "MC_fixtures.tla", name + "_design.cfg", 16, 3000 if tier == "thorough" else 900, cont=True) if CODE_KF else \
+        # (thorough tier only: the single deviation that the specification can switch on, F7, changes the result of one kind of
+        #  call and nothing else; the quick tier evaluates the same predicates on the generation run below)
+        d = run_tlc_retry(spec, "MC_fixtures.tla", name + "_design.cfg", 16, 3000, cont=True) if CODE_KF and tier == "thorough" else \
             {"tagged": [], "rc": 0, "errors": [], "distinct": 0, "generated": 0, "wall": 0}
         fails = {}
         for tl in d["tagged"]:
